@@ -354,7 +354,11 @@ type c17Run struct {
 	teardown   atomic.Bool
 	pclosed    bool
 
+	binary    bool
+	mild      bool // relay in the path: garbage without trigger / FAIL text (the relay itself reacts to those)
+	relayPort atomic.Int64
 	sigMu     sync.Mutex
+	addrIdx   map[string]int
 	sigs      map[string]chan struct{}
 	notes     map[string]int
 	actTunnel bool
@@ -481,7 +485,7 @@ type c17Case struct {
 
 func c17NewRun(id int, seed int64, base string, outcome string, upload bool) (*c17Run, error) {
 	r := &c17Run{id: id, rng: rand.New(rand.NewSource(seed)), rec: &c17Rec{}, upload: upload, outcome: outcome,
-		dialers: map[int]*c17Dialer{}, sigs: map[string]chan struct{}{}, notes: map[string]int{},
+		dialers: map[int]*c17Dialer{}, sigs: map[string]chan struct{}{}, notes: map[string]int{}, addrIdx: map[string]int{},
 		retCh: make(chan net.Conn, 1), serverDone: make(chan struct{}), syncCh: make(chan string, 4), aux: map[string]any{}}
 	r.uid = fmt.Sprintf("%011d00", (seed*7919+int64(id)*104729)%100000000000)
 	if r.uid[0] == '0' {
@@ -500,6 +504,7 @@ func c17NewRun(id int, seed int64, base string, outcome string, upload bool) (*c
 	if err := os.MkdirAll(r.dst, 0755); err != nil {
 		return nil, err
 	}
+	r.binary = r.rng.Intn(2) == 0
 	nfiles := 1 + r.rng.Intn(3)
 	for i := 0; i < nfiles; i++ {
 		n := []int{0, 1, 37, 1000, 5000, 20000, 70000}[r.rng.Intn(7)]
@@ -565,6 +570,9 @@ func (c17Sink) Write(p []byte) (int, error) { return len(p), nil }
 func (c17Sink) Close() error                { return nil }
 
 func (r *c17Run) garbage(side string) []byte {
+	if r.mild {
+		return []byte(fmt.Sprintf("#DATA:INBANDGARBAGE%s\n", side))
+	}
 	return []byte(fmt.Sprintf("\x1b7\x07::TRZSZ:TRANSFER:R:%s:%s:%d\r\n#DATA:INBANDGARBAGE%s\n#FAIL:eJwDAAAAAAE=\n\x03", kTrzszVersion, r.uid, r.port, side))
 }
 
@@ -584,7 +592,10 @@ func (r *c17Run) serverRole() {
 		}
 		r.rec.emit(map[string]any{"e": "sact", "tunnel": action.TunnelConnected}, nil)
 		r.signal("sact")
-		args := &baseArgs{Quiet: true, Bufsize: bufferSize{Size: 10 * 1024 * 1024}, Timeout: 10, Binary: r.rng.Intn(2) == 0}
+		args := &baseArgs{Quiet: true, Bufsize: bufferSize{Size: 10 * 1024 * 1024}, Timeout: 10, Binary: r.binary}
+		if args.Binary && !action.SupportBinary { // as trz.go recvFiles / tsz.go sendFiles do
+			args.Binary = false
+		}
 		if err := st.sendConfig(args, action, getEscapeChars(false), noTmuxMode, 0); err != nil {
 			return err
 		}
@@ -1337,6 +1348,126 @@ func c17MBT(d *vCtx) error {
 
 // ---------------------------------------------------------------- loopback TCP
 
+// c17RecLis wraps the real listener of listenForTunnel: Accept and Close are logged, accepted
+// connections are handed out as recording connections.
+type c17RecLis struct {
+	net.Listener
+	run    *c17Run
+	closed atomic.Bool
+}
+
+func (l *c17RecLis) Accept() (net.Conn, error) {
+	c, err := l.Listener.Accept()
+	if err != nil {
+		return c, err
+	}
+	r := l.run
+	ra := c.RemoteAddr().String()
+	// which connection attempt this is gets resolved from the peer address when the run is over
+	r.rec.emit(map[string]any{"e": "accept", "addr": ra}, nil)
+	return &c17RecConn{Conn: c, run: r, addr: ra}, nil
+}
+
+// resolveAddrs replaces the peer address in recorded events by the connection number.
+func (r *c17Run) resolveAddrs() {
+	r.sigMu.Lock()
+	defer r.sigMu.Unlock()
+	out := r.rec.evs[:0]
+	for _, e := range r.rec.evs {
+		if a, ok := e["addr"].(string); ok {
+			idx := r.addrIdx[a]
+			if idx == 0 {
+				r.notes["unknown-peer"]++
+				continue
+			}
+			delete(e, "addr")
+			e["i"] = idx
+		}
+		out = append(out, e)
+	}
+	r.rec.evs = out
+}
+
+func (l *c17RecLis) Close() error {
+	if l.closed.CompareAndSwap(false, true) && !l.run.teardown.Load() {
+		l.run.rec.emit(map[string]any{"e": "lclose"}, nil)
+	}
+	return l.Listener.Close()
+}
+
+// c17RecConn: server end of an accepted connection; logs the handler's first Read and its
+// Write of the server greeting.
+type c17RecConn struct {
+	net.Conn
+	run   *c17Run
+	addr  string
+	reads atomic.Int64
+}
+
+func (c *c17RecConn) Read(b []byte) (int, error) {
+	n, err := c.Conn.Read(b)
+	if c.reads.Add(1) == 1 && !c.run.teardown.Load() {
+		hello := n > 0 && string(b[:n]) == c.run.cHello
+		c.run.rec.emit(map[string]any{"e": "sread", "addr": c.addr, "hello": hello, "n": n}, nil)
+	}
+	return n, err
+}
+
+func (c *c17RecConn) Write(b []byte) (int, error) {
+	if string(b) == c.run.sHello && c.reads.Load() <= 1 && !c.run.teardown.Load() {
+		c.run.rec.emit(map[string]any{"e": "sreply", "addr": c.addr}, nil)
+	}
+	return c.Conn.Write(b)
+}
+
+// c17RecCConn: the connection the connector returns to the client; logs the client's first
+// Write (before it is made), its first Read and its Close.
+type c17RecCConn struct {
+	net.Conn
+	run    *c17Run
+	writes atomic.Int64
+	reads  atomic.Int64
+	closed atomic.Bool
+}
+
+func (c *c17RecCConn) Write(b []byte) (int, error) {
+	if c.writes.Add(1) == 1 && !c.run.teardown.Load() {
+		cls := "other"
+		if string(b) == c.run.cHello {
+			cls = "hello"
+		}
+		c.run.rec.emit(map[string]any{"e": "cwrite", "cls": cls}, nil)
+	}
+	return c.Conn.Write(b)
+}
+
+func (c *c17RecCConn) Read(b []byte) (int, error) {
+	n, err := c.Conn.Read(b)
+	if c.reads.Add(1) == 1 && !c.run.teardown.Load() {
+		cls := "other"
+		if n > 0 && string(b[:n]) == c.run.sHello {
+			cls = "hello"
+		} else if n == 0 {
+			cls = "eof"
+		}
+		c.run.rec.emit(map[string]any{"e": "cread", "cls": cls}, nil)
+	}
+	return n, err
+}
+
+func (c *c17RecCConn) Close() error {
+	if c.closed.CompareAndSwap(false, true) && !c.run.teardown.Load() {
+		c.run.rec.emit(map[string]any{"e": "cclose"}, nil)
+	}
+	return c.Conn.Close()
+}
+
+func (r *c17Run) register(conn net.Conn, idx int) {
+	r.sigMu.Lock()
+	r.addrIdx[conn.LocalAddr().String()] = idx
+	r.sigMu.Unlock()
+}
+
 // tcpStray runs one scripted connection attempt against 127.0.0.1:port.
 func (r *c17Run) tcpStray(d *c17Dialer, port int, start <-chan struct{}, delay time.Duration, wg *sync.WaitGroup) {
 	defer wg.Done()
@@ -1353,6 +1484,7 @@ func (r *c17Run) tcpStray(d *c17Dialer, port int, start <-chan struct{}, delay t
 		_ = tc.SetNoDelay(true)
 	}
 	d.d = conn
+	r.register(conn, d.idx)
 	r.rec.emit(map[string]any{"e": "arrive", "i": d.idx, "ok": true}, nil)
 	if d.script == "silent" {
 		return
@@ -1416,13 +1548,19 @@ func c17RunTCP(p *c17TCPPlan, base string) ([]map[string]any, map[string]any, er
 			time.Sleep(time.Duration(p.LateMs) * time.Millisecond)
 		}
 		if p.Outcome != "good" {
+			r.rec.emit(map[string]any{"e": "cret", "res": "nil"}, nil)
 			return nil
 		}
 		conn, err := net.DialTimeout("tcp", fmt.Sprintf("127.0.0.1:%d", port), 3*time.Second)
 		if err != nil {
+			r.rec.emit(map[string]any{"e": "cdial", "ok": false}, nil)
+			r.rec.emit(map[string]any{"e": "cret", "res": "nil"}, nil)
 			return nil
 		}
-		return conn
+		r.register(conn, 1)
+		r.rec.emit(map[string]any{"e": "cdial", "ok": true}, nil)
+		r.rec.emit(map[string]any{"e": "cret", "res": "conn"}, nil)
+		return &c17RecCConn{Conn: conn, run: r}
 	}
 	var wg sync.WaitGroup
 	for i := 2; i <= len(p.Scripts); i++ {
@@ -1433,7 +1571,8 @@ func c17RunTCP(p *c17TCPPlan, base string) ([]map[string]any, map[string]any, er
 		}
 		go r.tcpStray(r.dialers[i], port, start, delay, &wg)
 	}
-	r.start(listener, connector)
+	rl := &c17RecLis{Listener: listener, run: r}
+	r.start(rl, connector)
 	c17WaitFor(func() bool { return r.connCalls.Load() > 0 }, 5*time.Second)
 	close(start)
 	if !r.waitSig("act", 6*time.Second) {
@@ -1476,8 +1615,11 @@ func c17RunTCP(p *c17TCPPlan, base string) ([]map[string]any, map[string]any, er
 	r.drainTaps()
 	info := map[string]any{"id": p.ID, "hung": hung, "aux": r.aux, "notes": r.notes, "upload": r.upload,
 		"conn_port": r.connPort.Load(), "port": r.port, "act_tunnel": r.actTunnel}
+	r.teardown.Store(true)
 	listener.Close()
 	r.close()
+	r.resolveAddrs()
+	info["notes"] = r.notes
 	return r.rec.evs, info, nil
 }
 
@@ -1574,4 +1716,265 @@ func c17TCP(d *vCtx) error {
 	})
 }
 
-func c17Relay(d *vCtx) error { return fmt.Errorf("not built yet") }
+// ---------------------------------------------------------------- one relay hop
+
+// c17PortTap sits between the relay and the client's filter and learns the port the relay
+// advertises in the trigger line it forwards.
+type c17PortTap struct {
+	w   io.Writer
+	run *c17Run
+	buf []byte
+}
+
+func (t *c17PortTap) Write(p []byte) (int, error) {
+	if !t.run.signalled("relay-port") {
+		t.buf = append(t.buf, p...)
+		if m := trzszRegexp.FindSubmatch(t.buf); len(m) > 4 && m[4] != nil && bytes.Contains(t.buf[bytes.Index(t.buf, m[0]):], []byte("\n")) {
+			var port int
+			fmt.Sscanf(string(m[4][1:]), "%d", &port)
+			t.run.relayPort.Store(int64(port))
+			t.run.signal("relay-port")
+		}
+		if len(t.buf) > 4096 {
+			t.buf = t.buf[len(t.buf)-1024:]
+		}
+	}
+	return t.w.Write(p)
+}
+func (t *c17PortTap) Close() error { return nil }
+
+type c17WC struct{ io.Writer }
+
+func (c17WC) Close() error { return nil }
+
+// c17RunRelay: server <-> TrzszRelay <-> client filter; strangers dial the relay's port.
+func c17RunRelay(p *c17TCPPlan, base string) ([]map[string]any, map[string]any, error) {
+	seed := p.Seed*1000003 + int64(p.ID)
+	r, err := c17NewRun(p.ID, seed, base, p.Outcome, (p.ID+int(p.Seed))%2 == 0)
+	if err != nil {
+		return nil, nil, err
+	}
+	r.mild = true
+	t0 := time.Now()
+	listener, sport := listenForTunnel()
+	if listener == nil {
+		return nil, nil, fmt.Errorf("listenForTunnel failed")
+	}
+	r.port = sport
+	r.rec.emit(map[string]any{"e": "reset", "run": p.ID, "scripts": p.Scripts, "outcome": p.Outcome, "relay": true}, nil)
+
+	// in-band plumbing: server <-> relay <-> filter
+	r.c2sR, r.c2sW = io.Pipe() // relay -> server
+	r.s2cR, r.s2cW = io.Pipe() // server -> relay
+	rcR, rcW := io.Pipe()      // relay -> client
+	crR, crW := io.Pipe()      // client -> relay
+	r.cinR, r.cinW = io.Pipe()
+	slog := &traceLogger{}
+	r.tapS = c17NewTap(r, "S", slog)
+	r.st = newTransfer(r.s2cW, nil, false, slog)
+	r.st.acceptOnTunnel(listener, r.uid, sport)
+	wrapTransferInput(r.st, r.c2sR, false)
+	relay := NewTrzszRelay(crR, &c17PortTap{w: rcW, run: r}, c17WC{r.c2sW}, r.s2cR, TrzszOptions{})
+	relay.SetTunnelConnector(func(port int) net.Conn {
+		c, err := net.DialTimeout("tcp", fmt.Sprintf("127.0.0.1:%d", port), 3*time.Second)
+		if err != nil {
+			return nil
+		}
+		return c
+	})
+	start := make(chan struct{})
+	connector := func(port int) net.Conn {
+		r.connCalls.Add(1)
+		r.connPort.Store(int64(port))
+		<-start
+		if p.LateMs > 0 {
+			time.Sleep(time.Duration(p.LateMs) * time.Millisecond)
+		}
+		if p.Outcome != "good" {
+			r.rec.emit(map[string]any{"e": "cret", "res": "nil"}, nil)
+			return nil
+		}
+		conn, err := net.DialTimeout("tcp", fmt.Sprintf("127.0.0.1:%d", port), 3*time.Second)
+		if err != nil {
+			r.rec.emit(map[string]any{"e": "cdial", "ok": false}, nil)
+			r.rec.emit(map[string]any{"e": "cret", "res": "nil"}, nil)
+			return nil
+		}
+		r.register(conn, 1)
+		r.rec.emit(map[string]any{"e": "cdial", "ok": true}, nil)
+		r.rec.emit(map[string]any{"e": "cret", "res": "conn"}, nil)
+		return &c17RecCConn{Conn: conn, run: r}
+	}
+	r.filter = NewTrzszFilter(r.cinR, &c17Sink{}, crW, rcR, TrzszOptions{TerminalColumns: 100, DetectTraceLog: true})
+	r.tapC = c17NewTap(r, "C", r.filter.logger)
+	r.filter.SetTunnelConnector(connector)
+	mode := "S"
+	if r.upload {
+		mode = "R"
+		r.filter.oneTimeUploadFiles = r.srcFiles
+		r.clientRes = make(chan error, 1)
+		r.filter.oneTimeUploadResult = r.clientRes
+	} else {
+		r.filter.SetDefaultDownloadPath(r.dst)
+	}
+	go r.serverRole()
+	trigger := fmt.Sprintf("\x1b7\x07::TRZSZ:TRANSFER:%s:%s:%s:%d\r\n", mode, kTrzszVersion, r.uid, sport)
+	_, _ = r.s2cW.Write([]byte(trigger))
+	if !r.waitSig("relay-port", 5*time.Second) {
+		r.close()
+		listener.Close()
+		return nil, nil, fmt.Errorf("relay did not advertise a port")
+	}
+	rport := int(r.relayPort.Load())
+	// from here on "the greeting" is the one of the client <-> relay hop
+	r.cHello, r.sHello, _ = c17Greeting(r.uid, rport)
+	for i := 2; i <= len(p.Scripts); i++ {
+		d := &c17Dialer{idx: i, script: p.Scripts[i-1]}
+		d.chunks, d.classes = c17MakeChunks(d.script, i, r.cHello, r.sHello, r.uid, rport, r.rng)
+		if d.script == "wrongid" && r.rng.Intn(2) == 0 {
+			// the greeting of the server's own port, presented to the relay
+			h, _ := getHelloConstant(r.uid, sport)
+			d.chunks = [][]byte{[]byte(h)}
+		}
+		r.dialers[i] = d
+	}
+	var wg sync.WaitGroup
+	for i := 2; i <= len(p.Scripts); i++ {
+		wg.Add(1)
+		delay := time.Duration(0)
+		if i-2 < len(p.Delays) {
+			delay = time.Duration(p.Delays[i-2]) * time.Microsecond
+		}
+		go r.tcpStray(r.dialers[i], rport, start, delay, &wg)
+	}
+	c17WaitFor(func() bool { return r.connCalls.Load() > 0 }, 5*time.Second)
+	close(start)
+	if !r.waitSig("act", 6*time.Second) {
+		r.aux["no_act"] = true
+	}
+	wg.Wait()
+	anyReply := r.actTunnel
+	for _, d := range r.dialers {
+		if d.gotRep {
+			anyReply = true
+		}
+	}
+	if anyReply {
+		c17WaitFor(func() bool { return relay.tunnelRelay.Load() != nil }, 500*time.Millisecond)
+	}
+	constrained := true
+	if tr := relay.tunnelRelay.Load(); tr != nil {
+		for _, d := range r.dialers {
+			if d.d != nil && d.d.LocalAddr().String() == tr.clientConn.RemoteAddr().String() {
+				constrained = false
+			}
+		}
+	}
+	tA := time.Now()
+	hung := r.finishTransfer(constrained)
+	tB := time.Now()
+	r.drainTaps()
+	r.rec.emit(map[string]any{"e": "end"}, nil)
+	for i := 2; i <= len(p.Scripts); i++ {
+		d := r.dialers[i]
+		if d.d == nil || d.gotEOF {
+			continue
+		}
+		max := 40 * time.Millisecond
+		if !d.gotRep && d.script != "silent" {
+			max = 4 * time.Second
+		}
+		r.dialerObserve(d, max, true)
+	}
+	r.drainTaps()
+	info := map[string]any{"id": p.ID, "hung": hung, "aux": r.aux, "notes": r.notes, "upload": r.upload,
+		"conn_port": r.connPort.Load(), "port": rport, "act_tunnel": r.actTunnel,
+		"ms_setup": tA.Sub(t0).Milliseconds(), "ms_transfer": tB.Sub(tA).Milliseconds(), "ms_final": time.Since(tB).Milliseconds()}
+	r.teardown.Store(true)
+	listener.Close()
+	r.close()
+	crW.Close()
+	r.s2cW.Close()
+	return r.rec.evs, info, nil
+}
+
+func c17Relay(d *vCtx) error {
+	var err error
+	os.Unsetenv("TMUX")
+	os.Setenv("PATH", "/nonexistent") // TrzszRelay.resetToStandby runs `tmux refresh-client`
+	if c17DevNull, err = os.OpenFile(os.DevNull, os.O_WRONLY, 0); err != nil {
+		return err
+	}
+	n := d.pInt("runs", 100)
+	par := d.pInt("par", 16)
+	shards := d.pInt("shards", 4)
+	scripts := []string{"wrong", "wrongid", "long", "right", "split", "silent", "flood"}
+	return vShards(d, shards, func(si, sn int) error {
+		tr, err := vNewTrace(d.path("trace.ndjson"))
+		if err != nil {
+			return err
+		}
+		base, err := os.MkdirTemp(d.out, "work-")
+		if err != nil {
+			return err
+		}
+		rng := d.rng(int64(1800 + si))
+		var mu sync.Mutex
+		var infos []map[string]any
+		var wg sync.WaitGroup
+		sem := make(chan struct{}, par)
+		var firstErr error
+		cnt := 0
+		for id := si; id < n; id += sn {
+			p := &c17TCPPlan{ID: id + 1, Seed: d.seed, Outcome: "good", Relay: true}
+			if rng.Intn(6) == 0 {
+				p.Outcome = "refuse"
+			}
+			if rng.Intn(12) == 0 {
+				p.LateMs = 1100 + rng.Intn(300)
+			}
+			first := "absent"
+			if p.Outcome == "good" {
+				first = "genuine"
+			}
+			p.Scripts = []string{first}
+			ns := rng.Intn(3)
+			for k := 0; k < ns; k++ {
+				p.Scripts = append(p.Scripts, scripts[rng.Intn(len(scripts))])
+				p.Delays = append(p.Delays, rng.Intn(3000))
+			}
+			cnt++
+			wg.Add(1)
+			sem <- struct{}{}
+			go func(p *c17TCPPlan) {
+				defer wg.Done()
+				defer func() { <-sem }()
+				evs, info, err := c17RunRelay(p, base)
+				mu.Lock()
+				defer mu.Unlock()
+				if err != nil {
+					if firstErr == nil {
+						firstErr = err
+					}
+					return
+				}
+				for _, e := range evs {
+					tr.Emit(e, nil)
+				}
+				info["plan"] = p
+				infos = append(infos, info)
+			}(p)
+		}
+		wg.Wait()
+		if firstErr != nil {
+			return firstErr
+		}
+		d.set("runs", cnt)
+		d.set("events", tr.Len())
+		if err := tr.Close(); err != nil {
+			return err
+		}
+		os.RemoveAll(base)
+		return vWriteJSON(d.path("infos.json"), infos)
+	})
+}
